@@ -159,7 +159,8 @@ theorem mem_placeAll {α : Type} (n : Nat) (ps : List (Nat × α)) (l : List (Op
 /-- Every argument node `get_argument_nodes` returns is the source of an edge into the call. -/
 theorem src_of_getArgumentNodes {es : List Edge} {c : Nat} {as : List Nat} {kws : List (String × Nat)}
     (h : getArgumentNodes es c = some (as, kws)) :
-    (∀ a ∈ as, ∃ e ∈ es, e.dst = c ∧ e.src = a) ∧ (∀ q ∈ kws, ∃ e ∈ es, e.dst = c ∧ e.src = q.2) := by
+    (∀ a ∈ as, ∃ e ∈ es, e.dst = c ∧ e.src = a ∧ e.key ≠ .dep) ∧
+    (∀ q ∈ kws, ∃ e ∈ es, e.dst = c ∧ e.src = q.2 ∧ e.key ≠ .dep) := by
   unfold getArgumentNodes at h
   simp only at h
   split at h
@@ -176,7 +177,9 @@ theorem src_of_getArgumentNodes {es : List Edge} {c : Nat} {as : List Nat} {kws 
         simp only [inEdges, List.mem_filter, beq_iff_eq] at hed
         refine ⟨ed, hed.1, hed.2, ?_⟩
         split at hm
-        · simp only [Option.some.injEq] at hm; rw [← e, ← hm]
+        · rename_i i hkey
+          simp only [Option.some.injEq] at hm
+          exact ⟨by rw [← e, ← hm], by rw [hkey]; simp⟩
         · simp at hm
       · intro q hq
         obtain ⟨p0, hp0, e0⟩ := mem_pyDictS _ q hq
@@ -186,7 +189,9 @@ theorem src_of_getArgumentNodes {es : List Edge} {c : Nat} {as : List Nat} {kws 
         simp only [inEdges, List.mem_filter, beq_iff_eq] at hed
         refine ⟨ed, hed.1, hed.2, ?_⟩
         split at hm
-        · simp only [Option.some.injEq] at hm; rw [e0, ← e, ← hm]
+        · rename_i nm i hkey
+          simp only [Option.some.injEq] at hm
+          exact ⟨by rw [e0, ← e, ← hm], by rw [hkey]; simp⟩
         · simp at hm
     · simp at h
   · simp at h
